@@ -11,8 +11,15 @@ either profile, and that the result is the one of the pure model `HH.P`.
 -/
 namespace HH
 
-inductive Profile | debug | release
+/-- a build profile and target: are `debug_assert!`/overflow checks compiled in, and how many bits has
+`usize` (16, 32, 64 …)?  `u64`/`u32` arithmetic has its fixed width on every target. -/
+structure Profile where
+  checks : Bool
+  usizeBits : Nat
 deriving DecidableEq, Repr
+
+def Profile.debug : Profile := ⟨true, 64⟩
+def Profile.release : Profile := ⟨false, 64⟩
 
 namespace PP
 
@@ -21,9 +28,7 @@ abbrev R := Except String
 def chk (c : Bool) (msg : String) : R Unit := if c then pure () else throw msg
 /-- `debug_assert!` / overflow check: only in the debug profile -/
 def dbg (p : Profile) (c : Bool) (msg : String) : R Unit :=
-  match p with
-  | .debug => chk c msg
-  | .release => pure ()
+  if p.checks then chk c msg else pure ()
 
 /-- `&l[..n]` -/
 def sliceTo {α} (l : List α) (n : Nat) : R (List α) :=
@@ -42,12 +47,16 @@ def index (l : List (BitVec 8)) (i : Nat) : R (BitVec 8) :=
 /-- `l.split_at(n)` -/
 def splitAt {α} (l : List α) (n : Nat) : R (List α × List α) :=
   if n ≤ l.length then pure (l.take n, l.drop n) else throw "mid > len"
-/-- `a + b` on `usize`/`u64` (debug: overflow check) -/
+/-- `a + b` on `usize` (width of the target; debug: overflow check, release: wraps) -/
 def add64 (p : Profile) (a b : Nat) : R Nat := do
-  dbg p (a + b < 2 ^ 64) "attempt to add with overflow"
-  pure ((a + b) % 2 ^ 64)
-/-- `a - b` on `usize`/`u64` -/
+  dbg p (a + b < 2 ^ p.usizeBits) "attempt to add with overflow"
+  pure ((a + b) % 2 ^ p.usizeBits)
+/-- `a - b` on `usize` -/
 def sub64 (p : Profile) (a b : Nat) : R Nat := do
+  dbg p (b ≤ a) "attempt to subtract with overflow"
+  pure ((2 ^ p.usizeBits + a - b) % 2 ^ p.usizeBits)
+/-- `a - b` on `u64` (fixed width on every target) -/
+def subU64 (p : Profile) (a b : Nat) : R Nat := do
   dbg p (b ≤ a) "attempt to subtract with overflow"
   pure ((2 ^ 64 + a - b) % 2 ^ 64)
 
@@ -86,7 +95,7 @@ def setTo (p : Profile) (k : Pkt) (data : List (BitVec 8)) : R Pkt := do
 overflow checks on the shifts and on the `u64` subtraction -/
 def rotHalf (p : Profile) (count : Nat) (h : BitVec 32) : R (BitVec 32) := do
   dbg p (count < 32) "attempt to shift left with overflow"
-  let r ← sub64 p 32 count
+  let r ← subU64 p 32 count
   dbg p (r < 32) "attempt to shift right with overflow"
   pure ((h <<< (count % 32)) ||| (h >>> (r % 32)))
 
